@@ -84,7 +84,9 @@ class C09(object):
                          'PC.initial_bills_explicitly_zero.cases',
                          'PC.initial_bills_left_to_the_portfolio_rule.cases',
                          'solved_again_after_a_failure_at_a_later_period.cases',
-                         'PC.portfolio_rule_object_kept_and_reapplied_by_the_user.cases')
+                         'PC.portfolio_rule_object_kept_and_reapplied_by_the_user.cases',
+                         'steady_state_start_with_the_models_own_tolerance.cases',
+                         'steady_start.accuracy_compared_with_plain_run_from_the_same_start')
 
     def n_cases(self, tier):
         return 60 if tier == 'quick' else 6000
@@ -122,7 +124,10 @@ class C09(object):
                 # portfolio rule gives at k=0 (the solver derives it from the declared values)
                 'B0_derived': which == 'PC' and (idx // 7) % 4 == 3,
                 'retry_after_failure': (idx // 7) % 3 == 1,
-                'user_rule': which == 'PC' and (idx // 7) % 2 == 0}
+                'user_rule': which == 'PC' and (idx // 7) % 2 == 0,
+                # the solver's own steady-state start (for G[0]) followed by the spending path; the accuracy is the one the
+                # Model writes into its equation block (Err_Tolerance=1e-6), no tolerance parameter is set on the solver
+                'steady_start': which in ('SIM', 'SIMEX1') and (idx // 7) % 6 == 0}
         if case['B0_derived']:
             case['book_first'] = False      # the builder's book mode declares its own initial bill holding
         if which == 'PAIR':
@@ -202,7 +207,7 @@ class C09(object):
             names.update({'T': prefix + 'GOV__T', 'H': prefix + 'HH__F'})
         return cf, names
 
-    def compare(self, rec, V, cf, names, T, ctx):
+    def compare(self, rec, V, cf, names, T, ctx, limit=1e-6):
         worst = 0.0
         for key, name in names.items():
             if name not in V:
@@ -213,7 +218,7 @@ class C09(object):
                 got = V[name][k]
                 d = abs(got - float(exp)) / max(1.0, abs(float(exp)))
                 worst = max(worst, d)
-                if not d <= 1e-6:
+                if not d <= limit:
                     rec.violate('series_differs_from_book_recursion',
                                 dict(ctx, series=name, symbol=key, k=k, model_value=got, closed_form=float(exp)))
                     break
@@ -260,9 +265,80 @@ class C09(object):
                                                           'worst_rel': worst},
                 'worst': {'rel_vs_closed_form': worst}}
 
+    def run_steady_start(self, case):
+        from vf import ambient
+        from vf.oracle import block as B
+        rec = monitors.Recorder()
+        p, T, which = case['p'], case['T'], case['kind']
+        b = ambient.book_builders()[which](country_code='C1', use_book_exogenous=False)
+        mod = b.build_model()
+        mod.MaxTime = T
+        sv = mod.EquationSolver
+        sv.MaxIterations = 5000
+        sv.ParameterSolveInitialSteadyState = True
+        cf, names = self.configure(b, mod, which, p, case['G'], case['r'], case['V0'], case['YD0'], T)
+        try:
+            with contextlib.redirect_stdout(io.StringIO()):
+                mod.main()
+        except Exception as e:
+            return {'verdict': 'notjudged', 'shape': which + '|steady_start|' + type(e).__name__, 'obs': {'err': repr(e)[:200]}}
+        V = sv.TimeSeries
+        rec.count(which + '.judged')
+        rec.count('steady_state_start_with_the_models_own_tolerance.cases')
+        # (1) the emitted equations hold on the returned series to the accuracy the emitted block asks for
+        blk = B.split_block(mod.FinalEquations)
+        tol = float(blk['tol']) if blk['tol'] is not None else 1e-6
+        viol, stats = B.check_solution(blk, dict(V), tol)
+        for v in viol[:2]:
+            rec.violate('series_do_not_satisfy_the_models_equations_to_its_tolerance',
+                        dict(v['detail'], kind=v['kind'], model=which, note='steady-state start, Err_Tolerance line of the model'))
+        # (1b) what "within solver tolerance" means here is measured, not assumed: the same emitted block is solved from the same
+        # k=0 values by a plain solver at the block's tolerance (A) and at 1e-12 (R); the steady-state start must not leave the
+        # main run further from R than A is (factor 10)
+        import re as _re
+        from sfc_models.equation_solver import EquationSolver as _ES
+        body = '\n'.join(l for l in mod.FinalEquations.split('\n') if not _re.match(r'^\s*[A-Za-z_][A-Za-z_0-9]*\(0\)\s*=', l))
+        state = [n for n, _ in blk['endo']] + [n for n, _ in blk['lag']]
+        twin_text = '\n'.join('%s(0) = %r' % (n, float(V[n][0])) for n in state if n in V and n not in ('t', 'k')) + '\n' + body
+        runs = {}
+        try:
+            for tag, tol_ in (('A', None), ('R', 1e-12)):
+                sv2 = _ES()
+                sv2.MaxIterations = 20000
+                sv2.ParameterErrorTolerance = tol_
+                with contextlib.redirect_stdout(io.StringIO()):
+                    sv2.ParseString(twin_text)
+                    sv2.SolveEquation()
+                runs[tag] = sv2.TimeSeries
+        except Exception as e:
+            return {'verdict': 'notjudged', 'shape': which + '|steady_start|twin:' + type(e).__name__, 'obs': {'err': repr(e)[:200]}}
+
+        def dist(X):
+            w = 0.0
+            for n in state:
+                if n in X and n in runs['R']:
+                    for k in range(1, T + 1):
+                        w = max(w, abs(X[n][k] - runs['R'][n][k]) / max(1.0, abs(runs['R'][n][k])))
+            return w
+        err_S, err_A = dist(V), dist(runs['A'])
+        rec.count('steady_start.accuracy_compared_with_plain_run_from_the_same_start')
+        if err_S > 10.0 * err_A + 1e-10:
+            rec.violate('main_run_after_steady_state_start_less_accurate_than_the_models_tolerance_gives',
+                        {'model': which, 'distance_to_tight_solution_with_steady_state_start': err_S,
+                         'distance_of_a_plain_run_from_the_same_k0_values_at_the_models_tolerance': err_A, 'params': p})
+        # (2) the book's recursion from the model's own k=0 stocks (100 x the solver tolerance: a sanity bound)
+        cf = closed_sim(p, case['G'], V['HH__F'][0], T, expectations=(which == 'SIMEX1'), YD0=V['HH__AfterTax'][0])
+        worst = self.compare(rec, V, cf, names, T, {'model': which, 'params': p, 'steady_start': True}, limit=1e-4)
+        return {'verdict': 'violated' if rec.violations else 'held', 'nontrivial': True, 'shape': which + '|steady_start',
+                'counters': rec.counters, 'violations': rec.violations[:3],
+                'obs': {'params': p, 'T': T, 'worst_rel': worst, 'worst_residual_ratio': stats['worst_ratio']},
+                'worst': {'rel_vs_closed_form': worst}}
+
     def run_case(self, case):
         if case['kind'].startswith('ITER'):
             return self.run_iterative(case)
+        if case.get('steady_start'):
+            return self.run_steady_start(case)
         if case['kind'] == 'PAIR':
             return self.run_pair(case)
         from vf import ambient
